@@ -497,6 +497,7 @@ RunResult run_plan(const Plan &p, Stats *st, std::vector<uint64_t> *nt_pairs) {
                 for (unsigned round = 0; round < rounds && !V.set; round++) {
                     std::basic_string<Ch> tok; Ex exa = X_NONE;
                     try { ia >> tok; } catch (const SimReadFailure &) { exa = X_SIMREAD; } catch (const std::ios_base::failure &) { exa = X_IOSFAIL; }
+                    if (round) { simrt::SutScope sc; target = ST::string::from_validated("previous value, second round", 28); }    // a stale token cannot pass for "untouched"
                     std::string before(target.c_str(), target.size());
                     Ex exb = guarded(budget, st, [&] { ib >> target; });
                     std::string got(target.c_str(), target.size());
